@@ -72,6 +72,12 @@ theorem failAll_x (c : Chain) (ents : List Entry) (e : Err) (u : Nat) : OutX c (
   obtain ⟨en, _, q, _, rfl⟩ := hd
   simp only [delivExact]
 
+theorem failNew_x (c : Chain) (new : List Req) (e : Err) (u : Nat) : OutX c (failNew new e u) := by
+  intro d hd
+  simp only [failNew, List.mem_map] at hd
+  obtain ⟨q, _, rfl⟩ := hd
+  simp only [delivExact]
+
 theorem mergeInit_self (x : Report) : mergeInit x x = x := by
   unfold mergeInit; split <;> rfl
 
@@ -188,8 +194,8 @@ theorem fetchStep_x (w : World) (init : List Req) (hsb : ∀ k, SameBirth (init 
     (he : EntsX w init h st.ents) (ho : OutX w.chain st.out) :
     StepX w init h (fetchStep w h st new) := by
   apply fetchStep_cases
-  · intro _; exact OutX.append ho (failAll_x _ _ _ _)
-  · intro _ _; exact OutX.append ho (failAll_x _ _ _ _)
+  · intro _; exact OutX.append (OutX.append ho (failNew_x _ _ _ _)) (failAll_x _ _ _ _)
+  · intro _ _; exact OutX.append (OutX.append ho (failNew_x _ _ _ _)) (failAll_x _ _ _ _)
   · intro _ _
     have := notifySpends_x w init h _ (addNew_x w init hsb h new st.ents hb he)
     exact ⟨this.1, OutX.append ho this.2⟩
